@@ -288,10 +288,17 @@ OrderRules(s, e) ==
                       /\ ~MaybePopping(k, x) /\ ~MaybePopping(k, y)
                       /\ F[k].prio[x] > F[k].prio[y]
                       /\ (IsSucc(x) \/ IsSucc(y)) = succ}
+      \* (finding F12: the pop priorities start at math.MinInt32; a bar whose own priority is below that - the harness
+      \* writes -(2^30) for math.MinInt - stays above the popped bars)
+      BelowPopRange(k, x) == x \in DOMAIN F[k].prio /\ F[k].prio[x] <= -(1073741824)
       BadP(race) == {k \in DOMAIN F :
                  \E i \in 1..(Len(F[k].groups) - 1) :
                       LET x == F[k].groups[i].b  y == F[k].groups[i + 1].b IN
-                      ~Popping(k, x) /\ Popping(k, y) /\ PrioRace(k, y) = race}
+                      ~Popping(k, x) /\ Popping(k, y) /\ ~BelowPopRange(k, x) /\ PrioRace(k, y) = race}
+      BadPLow == {k \in DOMAIN F :
+                 \E i \in 1..(Len(F[k].groups) - 1) :
+                      LET x == F[k].groups[i].b  y == F[k].groups[i + 1].b IN
+                      ~Popping(k, x) /\ Popping(k, y) /\ BelowPopRange(k, x)}
       \* bars popped out in the same frame appear in the order in which the container finished them: the pop
       \* priorities are handed out while the frame before is flushed, and that frame is collected bottom row first
       PosIn(k, b) == CHOOSE i \in DOMAIN F[k].groups : F[k].groups[i].b = b
@@ -305,6 +312,7 @@ OrderRules(s, e) ==
      \o (IF Badk(FALSE) # {} THEN <<B("C06", "order", e, ToString(Badk(FALSE)))>> ELSE <<>>)
      \o (IF Badk(TRUE) # {} THEN <<B("C06,C17", "order/successor-position", e, ToString(Badk(TRUE)))>> ELSE <<>>)
      \o (IF BadP(FALSE) # {} THEN <<B("C18", "popped-not-on-top", e, ToString(BadP(FALSE)))>> ELSE <<>>)
+     \o (IF BadPLow # {} THEN <<B("C18", "popped-not-on-top/priority-below-pop-range", e, ToString(BadPLow))>> ELSE <<>>)
      \o (IF BadP(TRUE) # {} THEN <<B("C18", "popped-not-on-top/priority-changed-before-pop", e, ToString(BadP(TRUE)))>> ELSE <<>>)
 
 ---------------------------------------------------------------------------
@@ -353,7 +361,11 @@ FinalRules(s, e) ==
           swapped == {p \in okw \X okw : /\ W[p[1]].ret < W[p[2]].inv
                                         /\ Once(p[1]) /\ Once(p[2])
                                         /\ Pos(p[1]) > Pos(p[2])}
-      IN (IF lost # {} /\ NormalEnd(s) /\ s.cfg.refresh = "auto" /\ s.renderStarted
+          \* the lines of one call stay together: no other writer's line comes between them
+          torn == {i \in okw : W[i].k > 1 /\ Once(i) /\
+                     \E j \in okw : W[j].c = W[i].c /\ W[j].i = W[i].i /\ W[j].k = W[i].k - 1 /\ Once(j) /\ Pos(i) # Pos(j) + 1}
+      IN (IF torn # {} THEN <<B("C13", "write-torn", e, ToString({W[i].line : i \in torn}))>> ELSE <<>>)
+         \o (IF lost # {} /\ NormalEnd(s) /\ s.cfg.refresh = "auto" /\ s.renderStarted
           THEN <<B("C13", "text-lost", e, ToString({W[i].line : i \in lost}))>> ELSE <<>>)
          \o (IF s.topen # 0 /\ ~s.cfg.delay /\ ~s.wpartial /\ lost = {} /\ NormalEnd(s) /\ s.cfg.refresh = "auto" /\ s.renderStarted
              THEN <<B("C13", "text-bytes-altered", e, "line without its line feed")>> ELSE <<>>)
@@ -476,11 +488,16 @@ Step(s, e) ==
          [s EXCEPT !.waitAt = IF @ = 0 THEN e.seq ELSE @, !.doneAt = IF @ = 0 THEN e.seq ELSE @]
     [] e.ev = "ret" /\ e.op = "shutdown" -> [s EXCEPT !.doneAt = IF @ = 0 THEN e.seq ELSE @]
     [] e.ev = "inv" /\ e.op = "write" ->
-         [s EXCEPT !.writes = Append(@, [line |-> e.line, inv |-> e.seq, ret |-> 0, ok |-> FALSE, part |-> FALSE, c |-> e.c, i |-> e.i])]
+         \* one record per line of the call (k: its position within the call)
+         \* (an empty JSON array arrives as an empty function: its DOMAIN is counted, Len is not defined on it)
+         [s EXCEPT !.writes = @ \o [k \in 1..(1 + Cardinality(DOMAIN e.more)) |->
+                                      [line |-> IF k = 1 THEN e.line ELSE e.more[k - 1], inv |-> e.seq, ret |-> 0, ok |-> FALSE,
+                                       part |-> FALSE, c |-> e.c, i |-> e.i, k |-> k]]]
     [] e.ev = "ret" /\ e.op = "write" ->
-         LET i == CHOOSE i \in DOMAIN s.writes : s.writes[i].c = e.c /\ s.writes[i].i = e.i IN
-         [s EXCEPT !.writes[i].ret = e.seq, !.writes[i].ok = (e.err = "" /\ e.full),
-                   !.writes[i].part = e.partial, !.wpartial = @ \/ e.partial]
+         [s EXCEPT !.writes = [i \in DOMAIN @ |-> IF @[i].c = e.c /\ @[i].i = e.i
+                                                  THEN [@[i] EXCEPT !.ret = e.seq, !.ok = (e.err = "" /\ e.full), !.part = e.partial]
+                                                  ELSE @[i]],
+                   !.wpartial = @ \/ e.partial]
     [] e.ev = "ret" /\ e.op = "get" ->
          [s EXCEPT !.compSeen = IF e.completed THEN @ \cup {e.b} ELSE @,
                    !.compShown = IF e.completed THEN @ \cup {e.b} ELSE @,
@@ -605,7 +622,7 @@ NarrowRules == {"hang", "hang/detached-push", "hang/orphaned-successor", "hang/r
 DelayBlind == {"missing", "missing/detached-push", "never-shown", "never-shown/detached-push", "last-frame-missing",
                "last-frame-missing/detached-push", "notifier-list", "notifier-list/detached-push", "text-lost",
                "text-bytes-altered", "queued-never-shown", "successor-not-shown", "last-row-not-final",
-               "popped-not-on-top", "popped-out-of-order", "order", "order/successor-position"}
+               "popped-not-on-top", "popped-not-on-top/priority-below-pop-range", "popped-out-of-order", "order", "order/successor-position"}
 Applicable(s, q) == IF s.cfg.narrow THEN SelectSeq(q, LAMBDA b : b.r \in NarrowRules)
                     ELSE IF s.cfg.delay THEN SelectSeq(q, LAMBDA b : b.r \notin DelayBlind)
                     ELSE q
